@@ -504,7 +504,8 @@ func init() {
 	g1Specs["C08"] = func(tier string) *G1Spec {
 		sp := &G1Spec{Prop: "C08", Alpha: c08Alpha, Configs: baseConfigs(tier, true),
 			Steps: []string{"M", "MA", "Pb", "Pe", "R"}, Devs: []string{"m1", "p1", "m2", "p2"},
-			Roots: [][]string{{"B0", "M", "Pb", "Pe"}},
+			// roots: one completed persistence round; the very first round still in flight
+			Roots: [][]string{{"B0", "M", "Pb", "Pe"}, {"B0", "M", "Pb"}},
 			MaxB:  3, MaxD: 9, MaxK: 1, MaxR: 1, Deadline: tierDeadline(tier),
 			Note: "order-sensitive operator existing+\":\"+operand (nil existing rendered ^); oracle: snapshot dump == model fold at every state; map backing: lower-level content is a prefix state"}
 		if tier == "thorough" {
